@@ -18,6 +18,7 @@ DISPATCH = {
     "C06": ("harness.props.g1", "run"),
     "C03": ("harness.props.g1", "run"),
     "C05": ("harness.props.g1", "run"),
+    "C07": ("harness.props.c07", "run"),
     "C08": ("harness.props.g1", "run"),
     "C09": ("harness.props.g1", "run"),
     "C10": ("harness.props.c10", "run"),
